@@ -57,6 +57,34 @@ class BestClient:
         return None
 
 
+def _inline_scan_with_marker(fn, part):
+    """the dominance test written out in place: a scan over zip(new signed costs, stored best costs) that runs over the WHOLE
+    lists treats the trailing constraint marker as one more objective, looked at last.  The comparator of the property decides
+    on the marker first: a feasible best that is worse in one objective still dominates an infeasible new position.  A scan
+    that has not compared the markers before it compares objectives cannot give that answer."""
+    T = Terms(fn)
+    for lp in [n for n in ast.walk(fn) if isinstance(n, ast.For) and isinstance(n.iter, ast.Call) and access_path(n.iter.func) == "zip" and len(n.iter.args) == 2]:
+        srcs = [text(T.expand(a, at=lp)) for a in lp.iter.args]
+        roles = set()
+        for t_ in srcs:
+            if t_ == "%s.costs_signed" % part:
+                roles.add("new")
+            elif t_ == "%s.features['best_cost']" % part:
+                roles.add("best")
+        if roles != {"new", "best"}:
+            continue
+        tg = {n.id for n in ast.walk(lp.target) if isinstance(n, ast.Name)}
+        cmps = [c for c in ast.walk(lp) if isinstance(c, ast.Compare) and {n.id for n in ast.walk(c) if isinstance(n, ast.Name)} <= tg and len(tg) == 2]
+        marker_first = [c for c in ast.walk(fn) if isinstance(c, ast.Compare) and getattr(c, "lineno", 0) < lp.lineno and "[-1]" in text(c)
+                        and ("costs_signed" in text(c) or "best_cost" in text(c))]
+        if cmps and not marker_first:
+            return lp, ("whether the old best dominates the new position is decided by a scan over zip(%s, %s) - the whole lists, so the trailing constraint marker takes part like one "
+                        "more objective and is looked at last.  The dominance of the property decides on the marker FIRST: a feasible personal best (marker 0) that is worse in one "
+                        "objective still dominates an infeasible new position (marker 1); this scan stops at that objective and replaces the best by a position it dominates"
+                        % (srcs[0], srcs[1]))
+    return None
+
+
 def r1_best(ctx, repo):
     cls = repo.cls("SwarmAlgorithm", "algorithm_swarm")
     mod = cls.module
@@ -74,6 +102,10 @@ def r1_best(ctx, repo):
         try:
             outs = Interp(Evaluator(hooks=client), client).run(loops[0].body, {}, None)
         except Unsupported as e:
+            inl = _inline_scan_with_marker(fn, part)
+            if inl:
+                ctx.violated("R1", C, where(c.module, inl[0]), inl[1])
+                continue
             ctx.inconclusive("R1", C, where(c.module, fn), "outside the analysable fragment: %s" % e)
             continue
         if client.orient is None:
